@@ -638,7 +638,7 @@ func ParseSearchQueryPlaceholdersSettings(statement *pg_query.ParseResult, schem
 			//handle case if query was processed by searchable encryptor
 			if funcCall := expr.Lexpr.GetFuncCall(); funcCall != nil {
 				funcName := funcCall.GetFuncname()
-				if len(funcName) == 1 && strings.HasPrefix(funcName[0].GetString_().GetSval(), SubstrFuncName) {
+				if len(funcName) == 1 && strings.HasPrefix(funcName[0].GetString_().GetSval(), SubstrFuncName) && len(funcCall.GetArgs()) > 0 {
 					lColumn = funcCall.GetArgs()[0].GetColumnRef()
 				} else {
 					continue
